@@ -897,7 +897,7 @@ def run(ctx):
         ctx.add_broken("broken-correspondence", "Model/MeshExec.vo does not build", out[-1500:])
     run_guarded(ctx, lambda: correspondence(ctx, rc == 0), "C16 correspondence")
     big = bool(ctx.broken)
-    nb = ctx.n(60, 2000) * (5 if big else 1)
+    nb = ctx.n(60, 1200) * (5 if big else 1)
     run_guarded(ctx, lambda: search(ctx, nb, ctx.n(6, 9)), "C16 search")
 
 
